@@ -5,6 +5,8 @@ import math
 import numpy as np
 from hypothesis import strategies as st
 
+from mv import hperm
+
 from mv import gen_geom, geom
 from mv.quiet import silenced
 from mv.runner import FuzzPart, EnumPart, HypPart, Violation
@@ -189,7 +191,7 @@ def structure_case(draw):
     radii, _ = tables()
     els_all = list(radii.keys())
     common = ["H", "C", "N", "O", "Zr", "Cu", "Zn", "Cl", "Se", "Li", "Cs", "Fr", "D"]
-    n = draw(st.integers(2, 12))
+    n = draw(hperm.integers(2, 12))
     ck = draw(st.sampled_from(["none", "ortho", "tilt", "tilt-neg"]))
     if ck == "none":
         cell = None
@@ -202,17 +204,17 @@ def structure_case(draw):
     for i in range(n):
         if i > 0 and draw(st.booleans()):
             # near-cutoff partner of an earlier atom, possibly through an image
-            j = draw(st.integers(0, i - 1))
+            j = draw(hperm.integers(0, i - 1))
             c = cutoff(els[i], els[j], radii)
             d = c * (1 + draw(st.sampled_from([1e-6, -1e-6, 1e-3, -1e-3, 0.05, -0.05, 0.3, -0.3])))
-            img = np.array([draw(st.integers(-1, 1)) for _ in range(3)], float) if cell is not None else np.zeros(3)
+            img = np.array([draw(hperm.integers(-1, 1)) for _ in range(3)], float) if cell is not None else np.zeros(3)
             p = np.array(pos[j]) + img @ C + draw(gen_geom.unit_vector()) * d
         else:
             p = geom.cart(C, [draw(st.floats(0, 0.999)) for _ in range(3)])
         if cell is not None:
             p = geom.wrap(C, p)
         pos.append(np.asarray(p, float).tolist())
-    if cell is not None and draw(st.integers(0, 5)) == 0:
+    if cell is not None and draw(hperm.integers(0, 5)) == 0:
         # the same kind of cell written with integer entries (rounded up, so the widths only grow)
         cell = [[int(np.ceil(x)) if x > 0 else int(np.floor(x)) for x in row] for row in cell]
         C = np.array(cell, float)
@@ -226,11 +228,11 @@ def structure_case(draw):
     if xf == "shift":
         case["v"] = [draw(st.floats(-15, 15)) for _ in range(3)]
     elif xf == "permute":
-        case["perm"] = list(draw(st.permutations(range(n))))
+        case["perm"] = list(draw(hperm.permutations(range(n))))
     elif xf == "edit":
         # history on one object: detect, edit cell / positions in place, detect again
         case["stretch"] = [draw(st.sampled_from([1.0, 1.25, 1.6])) for _ in range(3)]
-        case["move"] = [draw(st.integers(0, n - 1)), [draw(st.floats(0, 0.999)) for _ in range(3)]]
+        case["move"] = [draw(hperm.integers(0, n - 1)), [draw(st.floats(0, 0.999)) for _ in range(3)]]
     return case
 
 
